@@ -700,6 +700,7 @@ def classify(e):
         ('AssertionError', 'Probably amplitude is violated', 'not_possible'),
         ('ValueError', 'too short for the given `rise_time`', 'dur_short_rise'),
         ('ValueError', 'Must supply `rise_time`', 'must_rise'),
+        ('ValueError', 'The `duration` is inconsistent', 'dur_inconsistent'),
         ('ValueError', 'Must supply area or duration', 'area_or_duration'),
         ('ValueError', 'Invalid timing:', 'timing'),
         ('ValueError', 'Refined amplitude', 'amp'),
@@ -740,6 +741,23 @@ def impl_call(case):
     return ('OK', vals)
 
 
+_EXPECT = None
+
+
+def expect():
+    """EXPECT of the translator plug-in: which form of the two proposed repairs the repository is expected to have"""
+    global _EXPECT
+    if _EXPECT is None:
+        import importlib.util
+        import os
+        path = os.path.join(os.path.dirname(os.path.dirname(os.path.abspath(__file__))), 'gensec', 'trap.py')
+        spec = importlib.util.spec_from_file_location('gensec_trap_for_c11', path)
+        m = importlib.util.module_from_spec(spec)
+        spec.loader.exec_module(m)
+        _EXPECT = dict(m.EXPECT)
+    return _EXPECT
+
+
 # ------------------------------------------------------------------------------------------------
 # oracle: the property's predicate, exact Fractions on the returned event
 def oracle(ctx, case, vals):
@@ -768,6 +786,15 @@ def oracle(ctx, case, vals):
     if a['duration'] is not None and a['flat_time'] is None:
         if not close(rise + flat + fall, F(a['duration']), F(a['duration'])):
             bad('duration', requested=a['duration'], returned=rise + flat + fall)
+    if a['duration'] is not None and a['flat_time'] is not None and a['flat_time'] >= 0 and only('area'):
+        # over-determined request: the repository ignores `duration` here (round-2 finding, proposed repair
+        # c11_fixC); demanded as soon as gensec/trap.py EXPECT says the code checks it
+        honoured = close(rise + flat + fall, F(a['duration']), F(a['duration']), ab=Fraction(1001, 10 ** 12))
+        if expect()['flat_checks_duration']:
+            if not honoured:
+                bad('duration', requested=a['duration'], returned=rise + flat + fall, with_flat_time=a['flat_time'])
+        elif not honoured:
+            ctx.count('finding.duration_ignored_with_flat_time')
     if a['flat_time'] is not None and not close(flat, F(a['flat_time']), F(a['flat_time'])):
         bad('flat_time', requested=a['flat_time'], returned=flat)
     area_only = only('area') and a['duration'] is None and a['flat_time'] is None
